@@ -1,6 +1,7 @@
 //! Independent A32 / T32 interpreters for the instructions an entry patch may consist of.
 //! Written from the ARM ARM (DDI 0406C): A8.8.64 LDR (literal), A8.8.27 BX, A8.8.120 NOP,
-//! MOV r8,r8 (0x46C0, the classic Thumb nop).  `Align(PC,4)` semantics included.
+//! MOV r8,r8 (0x46C0, the classic Thumb nop), and the 32-bit Thumb-2 LDR (literal) encoding T2
+//! (`1111 1000 U101 1111 | Rt imm12`).  `Align(PC,4)` semantics included.
 //! Returns None for anything else.
 
 pub struct ArmRun {
@@ -67,14 +68,19 @@ pub fn run_a32(base: u32, code: &[u8; 16]) -> Option<ArmRun> {
     None
 }
 
-/// T32 (16-bit encodings only): PC reads as address + 4
+/// T32: 16-bit encodings plus the 32-bit LDR (literal) T2; PC reads as address + 4
 pub fn run_t32(base: u32, code: &[u8; 16]) -> Option<ArmRun> {
     let mut regs = [0u32; 16];
     let mut r = ArmRun { dest: 0, written: 0, literal_off: 0, extent: 0 };
     let mut o = 0usize;
-    while o < 8 {
+    let mut n = 0;
+    while n < 4 {
+        if o > 10 {
+            return None;
+        }
         let h = h16(code, o);
         let pc = base.wrapping_add(o as u32).wrapping_add(4);
+        let mut len = 2usize;
         if h == 0x46C0 || h == 0xBF00 {
             // nop
         } else if h & 0xF800 == 0x4800 {
@@ -92,6 +98,27 @@ pub fn run_t32(base: u32, code: &[u8; 16]) -> Option<ArmRun> {
             if off + 4 > r.extent {
                 r.extent = off + 4;
             }
+        } else if h & 0xFF7F == 0xF85F {
+            // LDR.W Rt, [PC, #+/-imm12]   (T2, 32-bit)
+            let h2 = h16(code, o + 2);
+            let u = (h >> 7) & 1;
+            let rt = ((h2 >> 12) & 15) as usize;
+            let imm = (h2 & 0xFFF) as u32;
+            if rt == 15 || rt == 13 {
+                return None;
+            }
+            let a = if u == 1 { (pc & !3).wrapping_add(imm) } else { (pc & !3).wrapping_sub(imm) };
+            let off = a.wrapping_sub(base);
+            if off > 12 || a % 4 != 0 {
+                return None; // outside the modelled bytes, or not a word-aligned literal
+            }
+            regs[rt] = w32(code, off as usize);
+            r.written |= 1 << rt;
+            r.literal_off = off;
+            if off + 4 > r.extent {
+                r.extent = off + 4;
+            }
+            len = 4;
         } else if h & 0xFF87 == 0x4700 {
             // BX Rm
             let rm = ((h >> 3) & 15) as usize;
@@ -107,7 +134,8 @@ pub fn run_t32(base: u32, code: &[u8; 16]) -> Option<ArmRun> {
         } else {
             return None;
         }
-        o += 2;
+        o += len;
+        n += 1;
     }
     None
 }
